@@ -59,8 +59,8 @@ package implements
 //@   assigns nothing
 // the type that is modelled for parameter k: the element type for the variadic last parameter (a slice), else its type
 //@ macro func elemT(tuple *types.Tuple, k int, isVariadic bool) types.Type = (isVariadic && k == tuple.Len() - 1 && typeis(tuple.At(k).Type(), *types.Slice)) ? cast(tuple.At(k).Type(), *types.Slice).Elem() : tuple.At(k).Type()
-//@ macro func tupleModelI(l []InterfaceType, tuple *types.Tuple, isVariadic bool) bool = tuple == nil ? len(l) == 0 : (len(l) == tuple.Len() && (forall k int :: 0 <= k && k < tuple.Len() ==> l[k].TypeName == mName(elemT(tuple, k, isVariadic)) && l[k].TypePackage == mPkg(elemT(tuple, k, isVariadic)) && l[k].IsPointer == mPtr(elemT(tuple, k, isVariadic)) && l[k].goType == elemT(tuple, k, isVariadic) && l[k].IsVariadic == (isVariadic && k == tuple.Len() - 1)))
-//@ macro func tupleModelM(l []MethodType, tuple *types.Tuple, isVariadic bool) bool = tuple == nil ? len(l) == 0 : (len(l) == tuple.Len() && (forall k int :: 0 <= k && k < tuple.Len() ==> l[k].TypeName == mName(elemT(tuple, k, isVariadic)) && l[k].TypePackage == mPkg(elemT(tuple, k, isVariadic)) && l[k].IsPointer == mPtr(elemT(tuple, k, isVariadic)) && l[k].goType == elemT(tuple, k, isVariadic) && l[k].IsVariadic == (isVariadic && k == tuple.Len() - 1)))
+//@ macro func tupleModelI(l []InterfaceType, tuple *types.Tuple, isVariadic bool) bool = tuple == nil ? len(l) == 0 : (len(l) == tuple.Len() && (forall k int :: 0 <= k && k < tuple.Len() ==> l[k].TypeName == mName(elemT(tuple, k, isVariadic)) && l[k].TypePackage == mPkg(elemT(tuple, k, isVariadic)) && l[k].IsPointer == mPtr(elemT(tuple, k, isVariadic)) && l[k].goType == elemT(tuple, k, isVariadic) && l[k].goType != nil && l[k].IsVariadic == (isVariadic && k == tuple.Len() - 1)))
+//@ macro func tupleModelM(l []MethodType, tuple *types.Tuple, isVariadic bool) bool = tuple == nil ? len(l) == 0 : (len(l) == tuple.Len() && (forall k int :: 0 <= k && k < tuple.Len() ==> l[k].TypeName == mName(elemT(tuple, k, isVariadic)) && l[k].TypePackage == mPkg(elemT(tuple, k, isVariadic)) && l[k].IsPointer == mPtr(elemT(tuple, k, isVariadic)) && l[k].goType == elemT(tuple, k, isVariadic) && l[k].goType != nil && l[k].IsVariadic == (isVariadic && k == tuple.Len() - 1)))
 //@ macro func sigOfFunc(f *types.Func) *types.Signature = cast(f.Type(), *types.Signature)
 //@ func extractTypesFromTuple
 //@   props C05 C10
@@ -68,22 +68,23 @@ package implements
 //@   assigns nothing
 //@   ensures tuple == nil ==> len(result) == 0
 //@   ensures tuple != nil ==> len(result) == tuple.Len()
-//@   ensures tuple != nil ==> (forall k int :: 0 <= k && k < tuple.Len() ==> result[k].TypeName == mName(elemT(tuple, k, isVariadic)) && result[k].TypePackage == mPkg(elemT(tuple, k, isVariadic)) && result[k].IsPointer == mPtr(elemT(tuple, k, isVariadic)) && result[k].goType == elemT(tuple, k, isVariadic) && result[k].IsVariadic == (isVariadic && k == tuple.Len() - 1))
+//@   ensures tuple != nil ==> (forall k int :: 0 <= k && k < tuple.Len() ==> result[k].TypeName == mName(elemT(tuple, k, isVariadic)) && result[k].TypePackage == mPkg(elemT(tuple, k, isVariadic)) && result[k].IsPointer == mPtr(elemT(tuple, k, isVariadic)) && result[k].goType == elemT(tuple, k, isVariadic) && result[k].goType != nil && result[k].IsVariadic == (isVariadic && k == tuple.Len() - 1))
 //@   loop 1 invariant len(result) == tuple.Len() && 0 <= $v && $v <= tuple.Len()
-//@   loop 1 invariant forall k int :: 0 <= k && k < $v ==> result[k].TypeName == mName(elemT(tuple, k, isVariadic)) && result[k].TypePackage == mPkg(elemT(tuple, k, isVariadic)) && result[k].IsPointer == mPtr(elemT(tuple, k, isVariadic)) && result[k].goType == elemT(tuple, k, isVariadic) && result[k].IsVariadic == (isVariadic && k == tuple.Len() - 1)
+//@   loop 1 invariant forall k int :: 0 <= k && k < $v ==> result[k].TypeName == mName(elemT(tuple, k, isVariadic)) && result[k].TypePackage == mPkg(elemT(tuple, k, isVariadic)) && result[k].IsPointer == mPtr(elemT(tuple, k, isVariadic)) && result[k].goType == elemT(tuple, k, isVariadic) && result[k].goType != nil && result[k].IsVariadic == (isVariadic && k == tuple.Len() - 1)
 //@ func extractMethodTypesFromTuple
 //@   props C05 C10
 //@   nilable tuple
 //@   assigns nothing
 //@   ensures tuple == nil ==> len(result) == 0
 //@   ensures tuple != nil ==> len(result) == tuple.Len()
-//@   ensures tuple != nil ==> (forall k int :: 0 <= k && k < tuple.Len() ==> result[k].TypeName == mName(elemT(tuple, k, isVariadic)) && result[k].TypePackage == mPkg(elemT(tuple, k, isVariadic)) && result[k].IsPointer == mPtr(elemT(tuple, k, isVariadic)) && result[k].goType == elemT(tuple, k, isVariadic) && result[k].IsVariadic == (isVariadic && k == tuple.Len() - 1))
+//@   ensures tuple != nil ==> (forall k int :: 0 <= k && k < tuple.Len() ==> result[k].TypeName == mName(elemT(tuple, k, isVariadic)) && result[k].TypePackage == mPkg(elemT(tuple, k, isVariadic)) && result[k].IsPointer == mPtr(elemT(tuple, k, isVariadic)) && result[k].goType == elemT(tuple, k, isVariadic) && result[k].goType != nil && result[k].IsVariadic == (isVariadic && k == tuple.Len() - 1))
 //@   loop 1 invariant len(result) == tuple.Len() && 0 <= $v && $v <= tuple.Len()
-//@   loop 1 invariant forall k int :: 0 <= k && k < $v ==> result[k].TypeName == mName(elemT(tuple, k, isVariadic)) && result[k].TypePackage == mPkg(elemT(tuple, k, isVariadic)) && result[k].IsPointer == mPtr(elemT(tuple, k, isVariadic)) && result[k].goType == elemT(tuple, k, isVariadic) && result[k].IsVariadic == (isVariadic && k == tuple.Len() - 1)
+//@   loop 1 invariant forall k int :: 0 <= k && k < $v ==> result[k].TypeName == mName(elemT(tuple, k, isVariadic)) && result[k].TypePackage == mPkg(elemT(tuple, k, isVariadic)) && result[k].IsPointer == mPtr(elemT(tuple, k, isVariadic)) && result[k].goType == elemT(tuple, k, isVariadic) && result[k].goType != nil && result[k].IsVariadic == (isVariadic && k == tuple.Len() - 1)
 //@ func extractMethodsFromInterface
 //@   props C05 C10
 //@   assigns nothing
 //@   ensures len(result) == iface.NumMethods()
+//@   ensures forall a int :: 0 <= a && a < len(result) ==> wfIM(result[a])
 //@   ensures forall a int :: 0 <= a && a < len(result) ==> result[a].Name == iface.Method(a).Name() && result[a].id == iface.Method(a).Id()
 //@   ensures forall a int :: 0 <= a && a < len(result) ==> tupleModelI(result[a].Inputs, sigOfFunc(iface.Method(a)).Params(), sigOfFunc(iface.Method(a)).Variadic()) && tupleModelI(result[a].Outputs, sigOfFunc(iface.Method(a)).Results(), false)
 //@   loop 1 invariant 0 <= $v && $v <= iface.NumMethods() && len(methods) == $v
@@ -103,6 +104,7 @@ package implements
 //@   props C05 C10
 //@   assigns nothing
 //@   ensures len(result) == msAll(named).Len()
+//@   ensures forall a int :: 0 <= a && a < len(result) ==> wfM(result[a])
 //@   ensures forall a int :: 0 <= a && a < len(result) ==> result[a].Name == msAll(named).At(a).Obj().Name() && result[a].id == msAll(named).At(a).Obj().Id() && result[a].ReceiverIsPointer == !inValueSet(named, msAll(named).At(a).Obj()) && result[a].valueOnly == !inPtrSet(named, msAll(named).At(a).Obj())
 //@   ensures forall a int :: 0 <= a && a < len(result) ==> tupleModelM(result[a].Inputs, sigOfFunc(cast(msAll(named).At(a).Obj(), *types.Func)).Params(), sigOfFunc(cast(msAll(named).At(a).Obj(), *types.Func)).Variadic()) && tupleModelM(result[a].Outputs, sigOfFunc(cast(msAll(named).At(a).Obj(), *types.Func)).Results(), false)
 //@   ensures forall a int, b int :: 0 <= a && a < b && b < len(result) ==> mKey(result[a].Name, result[a].id) != mKey(result[b].Name, result[b].id)
@@ -122,15 +124,22 @@ package implements
 
 // two parameter models match iff Go deems their types identical and both are variadic or neither is; models without a
 // go/types type (hand-built) by their flat description
-//@ macro func mtEq(a MethodType, b InterfaceType) bool = (a.goType != nil && b.goType != nil) ? (a.IsVariadic == b.IsVariadic && types.Identical(a.goType, b.goType)) : (a.TypeName == b.TypeName && a.TypePackage == b.TypePackage && a.IsPointer == b.IsPointer && a.IsVariadic == b.IsVariadic)
+// (only models made from type information - goType != nil - are constrained: the comparison of hand-built models by their
+// flat description is used by the unit tests only and is not part of the property)
+//@ macro func mtEq(a MethodType, b InterfaceType) bool = a.IsVariadic == b.IsVariadic && types.Identical(a.goType, b.goType)
+//@ macro func wfM(tm TypeMethod) bool = (forall i int :: 0 <= i && i < len(tm.Inputs) ==> tm.Inputs[i].goType != nil) && (forall i int :: 0 <= i && i < len(tm.Outputs) ==> tm.Outputs[i].goType != nil)
+//@ macro func wfIM(im InterfaceMethod) bool = (forall i int :: 0 <= i && i < len(im.Inputs) ==> im.Inputs[i].goType != nil) && (forall i int :: 0 <= i && i < len(im.Outputs) ==> im.Outputs[i].goType != nil)
+//@ macro func wfT(tm *TypeModel) bool = forall q int :: 0 <= q && q < len(tm.Methods) ==> wfM(tm.Methods[q])
+//@ macro func wfI(im *InterfaceModel) bool = forall q int :: 0 <= q && q < len(im.Methods) ==> wfIM(im.Methods[q])
 //@ macro func sigEq(tm TypeMethod, im InterfaceMethod) bool = len(tm.Inputs) == len(im.Inputs) && len(tm.Outputs) == len(im.Outputs) && (forall i int :: 0 <= i && i < len(tm.Inputs) ==> mtEq(tm.Inputs[i], im.Inputs[i])) && (forall i int :: 0 <= i && i < len(tm.Outputs) ==> mtEq(tm.Outputs[i], im.Outputs[i]))
 //@ func typesMatch
 //@   props C05 C10
 //@   requires t1 != nil && t2 != nil
-//@   ensures result == mtEq(*t1, *t2)
+//@   ensures t1.goType != nil && t2.goType != nil ==> result == mtEq(*t1, *t2)
 //@   assigns nothing
 //@ func signaturesMatch
 //@   props C05 C10
+//@   requires wfM(typeMethod) && wfIM(ifaceMethod)
 //@   ensures result == sigEq(typeMethod, ifaceMethod)
 //@   assigns nothing
 //@   loop 1 invariant forall k int :: 0 <= k && k < $i ==> mtEq(typeMethod.Inputs[k], ifaceMethod.Inputs[k])
@@ -162,7 +171,7 @@ package implements
 // IMPL03 (in the matcher's own model): exactly the interface methods without a usable method of the same name and signature
 //@ func checkImplementation
 //@   props C05 C10
-//@   requires typeModel != nil && iface != nil && uniqueNames(typeModel)
+//@   requires typeModel != nil && iface != nil && uniqueNames(typeModel) && wfT(typeModel) && wfI(iface)
 //@   assigns nothing
 //@   ensures forall j int :: 0 <= j && j < len(result) ==> (exists k int :: 0 <= k && k < len(iface.Methods) && result[j] == iface.Methods[k] && !implemented(typeModel, iface.Methods[k], requirePointer))
 //@   ensures forall k int :: 0 <= k && k < len(iface.Methods) && !implemented(typeModel, iface.Methods[k], requirePointer) ==> (exists j int :: 0 <= j && j < len(result) && result[j] == iface.Methods[k])
@@ -203,14 +212,14 @@ package implements
 //@   props C05 C10
 //@   requires pkg != nil
 //@   assigns nothing
-//@   ensures forall k int :: 0 <= k && k < len(result) ==> result[k] != nil && fresh(result[k]) && result[k].Package == pkg.Path()
+//@   ensures forall k int :: 0 <= k && k < len(result) ==> result[k] != nil && fresh(result[k]) && result[k].Package == pkg.Path() && wfI(result[k])
 //@   ensures forall n string :: hasIfaceModel(result, pkg.Path(), n) <==> (targetInterfaces[n] && declaresIface(pkg, n))
 //@   ensures forall a int, b int :: 0 <= a && a < b && b < len(result) ==> result[a].Name != result[b].Name
 //@   ensures forall k int :: 0 <= k && k < len(result) ==> !strings.Contains(result[k].Name, ".")
 //@   loop 1 frame
 //@   loop 1 invariant forall a int, b int :: 0 <= a && a < b && b < len(result) ==> result[a].Name != result[b].Name
 //@   loop 1 invariant forall k int :: 0 <= k && k < len(result) ==> !strings.Contains(result[k].Name, ".") && (exists j int :: 0 <= j && j < $i && result[k].Name == $seq[j])
-//@   loop 1 invariant forall k int :: 0 <= k && k < len(result) ==> result[k] != nil && fresh(result[k]) && result[k].Package == pkg.Path()
+//@   loop 1 invariant forall k int :: 0 <= k && k < len(result) ==> result[k] != nil && fresh(result[k]) && result[k].Package == pkg.Path() && wfI(result[k])
 //@   loop 1 invariant forall n string :: hasIfaceModel(result, pkg.Path(), n) <==> (targetInterfaces[n] && pkg.Scope().Lookup(n) != nil && typeis(pkg.Scope().Lookup(n), *types.TypeName) && typeis(pkg.Scope().Lookup(n).Type().Underlying(), *types.Interface) && (exists j int :: 0 <= j && j < $i && $seq[j] == n))
 // the package path a query refers to ("" = the package being analysed)
 //@ macro func qPath(pass *analysis.Pass, q annotations.InterfaceQuery) string = q.PackageName == "" ? pass.Pkg.Path() : q.PackageName
@@ -222,7 +231,7 @@ package implements
 //@   props C05 C10
 //@   requires pass.Pkg != nil
 //@   assigns nothing
-//@   ensures forall k int :: 0 <= k && k < len(result) ==> result[k] != nil && fresh(result[k])
+//@   ensures forall k int :: 0 <= k && k < len(result) ==> result[k] != nil && fresh(result[k]) && wfI(result[k])
 //@   ensures forall p string, n string :: hasIfaceModel(result, p, n) <==> (queried(pass, queries, len(queries), p, n) && (exists pkg *types.Package :: scanned(pass, pkg) && pkg.Path() == p && declaresIface(pkg, n)))
 //@   ensures uniqueIfaces(result)
 //@   loop 1 frame
@@ -237,7 +246,7 @@ package implements
 //@   loop 2 invariant forall k int :: 0 <= k && k < len(packagesToScan) ==> scanned(pass, packagesToScan[k]) && indom(pkgToInterface, packagesToScan[k].Path())
 //@   loop 2 invariant indom(pkgToInterface, pass.Pkg.Path()) ==> contains(packagesToScan, pass.Pkg)
 //@   loop 2 invariant forall j int :: 0 <= j && j < $i && indom(pkgToInterface, $seq[j].Path()) ==> contains(packagesToScan, $seq[j])
-//@   loop 3 invariant forall k int :: 0 <= k && k < len(result) ==> result[k] != nil && fresh(result[k])
+//@   loop 3 invariant forall k int :: 0 <= k && k < len(result) ==> result[k] != nil && fresh(result[k]) && wfI(result[k])
 //@   loop 3 invariant forall p string, n string :: hasIfaceModel(result, p, n) <==> (exists k int :: 0 <= k && k < $i && packagesToScan[k].Path() == p && tmHas(pkgToInterface, p, n) && declaresIface(packagesToScan[k], n))
 // a type model is loaded for name n exactly if n is asked for and the package declares a type name n that denotes a defined
 // (named) type - directly or as an alias of one
@@ -247,18 +256,18 @@ package implements
 //@   props C05 C10
 //@   requires pkg != nil
 //@   assigns nothing
-//@   ensures forall k int :: 0 <= k && k < len(result) ==> result[k] != nil && fresh(result[k]) && uniqueNames(result[k]) && result[k].Package == pkg.Path()
+//@   ensures forall k int :: 0 <= k && k < len(result) ==> result[k] != nil && fresh(result[k]) && uniqueNames(result[k]) && wfT(result[k]) && result[k].Package == pkg.Path()
 //@   ensures forall n string :: hasTypeModel(result, n) <==> (targetTypes[n] && declaresNamed(pkg, n))
 //@   ensures uniqueTypes(result)
 //@   loop 1 frame
 //@   loop 1 invariant uniqueTypes(result) && (forall k int :: 0 <= k && k < len(result) ==> (exists j int :: 0 <= j && j < $i && result[k].Name == $seq[j]))
-//@   loop 1 invariant forall k int :: 0 <= k && k < len(result) ==> result[k] != nil && fresh(result[k]) && uniqueNames(result[k]) && result[k].Package == pkg.Path()
+//@   loop 1 invariant forall k int :: 0 <= k && k < len(result) ==> result[k] != nil && fresh(result[k]) && uniqueNames(result[k]) && wfT(result[k]) && result[k].Package == pkg.Path()
 //@   loop 1 invariant forall n string :: hasTypeModel(result, n) <==> (targetTypes[n] && pkg.Scope().Lookup(n) != nil && typeis(pkg.Scope().Lookup(n), *types.TypeName) && typeis(types.Unalias(pkg.Scope().Lookup(n).Type()), *types.Named) && (exists j int :: 0 <= j && j < $i && $seq[j] == n))
 //@ func LoadTypes
 //@   props C05 C10
 //@   requires pass.Pkg != nil
 //@   assigns nothing
-//@   ensures forall k int :: 0 <= k && k < len(result) ==> result[k] != nil && fresh(result[k]) && uniqueNames(result[k])
+//@   ensures forall k int :: 0 <= k && k < len(result) ==> result[k] != nil && fresh(result[k]) && uniqueNames(result[k]) && wfT(result[k])
 //@   ensures forall n string :: hasTypeModel(result, n) <==> ((exists q int :: 0 <= q && q < len(queries) && queries[q].TypeName == n) && declaresNamed(pass.Pkg, n))
 //@   ensures uniqueTypes(result)
 //@   loop 1 frame
@@ -275,8 +284,8 @@ package implements
 //@ macro func due03(a annotations.ImplementsAnnotation, interfaces []*InterfaceModel, types []*TypeModel) bool = !a.PackageNotFound && (exists i int, t int :: 0 <= i && i < len(interfaces) && ifaceKey(interfaces[i]) == annKey(a) && 0 <= t && t < len(types) && types[t].Name == a.OnType && lacks(types[t], interfaces[i], a.IsPointer))
 //@ func FindMissingMethods
 //@   props C05 C17 C10
-//@   requires forall k int :: 0 <= k && k < len(interfaces) ==> interfaces[k] != nil
-//@   requires forall k int :: 0 <= k && k < len(types) ==> types[k] != nil && uniqueNames(types[k])
+//@   requires forall k int :: 0 <= k && k < len(interfaces) ==> interfaces[k] != nil && wfI(interfaces[k])
+//@   requires forall k int :: 0 <= k && k < len(types) ==> types[k] != nil && uniqueNames(types[k]) && wfT(types[k])
 //@   requires uniqueIfaces(interfaces) && uniqueTypes(types)
 //@   assigns nothing
 //@   ensures forall j int :: 0 <= j && j < len(result) ==> (exists k int :: 0 <= k && k < len(annotations) && due03(annotations[k], interfaces, types) && mm03(result[j], annotations[k]))
